@@ -53,25 +53,8 @@ Proof. reflexivity. Qed.
 Lemma print_str s : print_json (JStr s) = quote s.
 Proof. reflexivity. Qed.
 
-(** ---- lookups in the dict the parser builds ---- *)
-Lemma copy_prop_get k k' src dst :
-  String.eqb k k' = false -> jget k (copy_prop k' src dst) = jget k dst.
-Proof. intros N. unfold copy_prop. destruct (jget k' src); [now rewrite jget_jset_neq|reflexivity]. Qed.
-
-Lemma base_type kv ty : jget "type" (base_of kv ty) = Some ty.
-Proof. unfold base_of. rewrite copy_prop_get by reflexivity. apply jget_jset_eq. Qed.
-
-Lemma base_reserved kv ty k :
-  mem k RESERVED_PROPERTIES = true -> String.eqb k "type" = false -> String.eqb k "doc" = false ->
-  jget k (base_of kv ty) = None.
-Proof.
-  intros M N1 N2. unfold base_of. rewrite copy_prop_get by exact N2.
-  rewrite jget_jset_neq by exact N1. now apply jget_jdrop_in.
-Qed.
-
-Ltac getk :=
-  repeat first [rewrite jget_jset_eq | rewrite jget_jset_neq by reflexivity | rewrite base_type
-               | rewrite base_reserved by reflexivity].
+(* lookups in the dict the parser builds: copy_prop_get, base_type, base_reserved, keep_get and the
+   tactic getk come from ParseProofs *)
 
 (** ---- symbols and sizes print alike ---- *)
 Lemma symbols_print syms ss :
@@ -263,8 +246,8 @@ Proof.
 Qed.
 
 Section Tops.
-  Variable rec : json -> named -> pres (json * named).
-  Inductive tops_ok : list json -> named -> list json -> named -> Prop :=
+  Variable rec : json -> pstate -> pres (json * pstate).
+  Inductive tops_ok : list json -> pstate -> list json -> pstate -> Prop :=
   | TNil t : tops_ok [] t [] t
   | TCons s r t p t1 ps t2 : rec s t = POk (p, t1) -> tops_ok r t1 ps t2 -> tops_ok (s :: r) t (p :: ps) t2.
   Lemma parse_tops_inv l : forall t ps t', parse_tops rec l t = POk (ps, t') -> tops_ok l t ps t'.
@@ -276,9 +259,6 @@ Section Tops.
       injection H as <- <-. econstructor; eauto.
   Qed.
 End Tops.
-
-Lemma unmarked_arr l : unmarked (JArr l) = forallb unmarked l.
-Proof. unfold unmarked. rewrite jfold_arr. rewrite forallb_map. reflexivity. Qed.
 
 Lemma simple_raw_arr l : simple_raw (JArr l) = true -> forallb simple_raw l = true.
 Proof.
@@ -292,21 +272,20 @@ Qed.
 Lemma pcf_arr_text l : pcf (JArr l) = "[" ++ join "," (map pcf l) ++ "]".
 Proof. unfold pcf, pcf_json. rewrite pcf_arr, print_arr, map_map. reflexivity. Qed.
 
-Lemma run_parse_spec f j t p t' :
-  simple_raw j = true -> run_parse f j t = POk (p, t') -> canon p = pcf j.
+Lemma run_parse_spec f j st p st' :
+  simple_raw j = true -> run_parse f j st = POk (p, st') -> canon p = pcf j.
 Proof.
   unfold run_parse, simple_raw. intros S H. apply Bool.andb_true_iff in S. destruct S as [S _].
-  destruct (parse_rec f j "" true (mkst [] t) None) as [[p0 st]| | | |] eqn:E; cbn [pbind] in H; try discriminate H.
-  injection H as <- <-. eapply parse_rec_spec; eauto.
+  eapply parse_rec_spec; eauto.
 Qed.
 
-Lemma parse_schema_rec_spec f : forall j t p t',
-  simple_raw j = true -> parse_schema_rec f j t = POk (p, t') -> canon p = pcf j.
+Lemma parse_schema_rec_spec f : forall j st p st',
+  simple_raw j = true -> parse_schema_rec f j st = POk (p, st') -> canon p = pcf j.
 Proof.
-  induction f as [|f IH]; intros j t p t' S H; cbn [parse_schema_rec] in H; [discriminate H|].
+  induction f as [|f IH]; intros j st p st' S H; cbn [parse_schema_rec] in H; [discriminate H|].
   destruct j as [| | | | |l|kv]; try (eapply run_parse_spec; eauto; fail).
   - (* top-level union *)
-    destruct (parse_tops (parse_schema_rec f) l t) as [[ps t1]| | | |] eqn:E; cbn [pbind] in H; try discriminate H.
+    destruct (parse_tops (parse_schema_rec f) l st) as [[ps st1]| | | |] eqn:E; cbn [pbind] in H; try discriminate H.
     injection H as <- <-. apply parse_tops_inv in E. apply simple_raw_arr in S.
     rewrite canon_arr, pcf_arr_text.
     assert (EQ : map canon ps = map pcf l); [|now rewrite EQ].
@@ -316,7 +295,7 @@ Proof.
   - (* dict: raw by hypothesis *)
     assert (U : jhas "__fastavro_parsed" kv = false).
     { unfold simple_raw in S. apply Bool.andb_true_iff in S. destruct S as [_ U].
-      unfold unmarked in U. rewrite jfold_obj in U. now apply Bool.negb_true_iff in U. }
+      rewrite unmarked_obj in U. now apply Bool.negb_true_iff in U. }
     rewrite U in H. eapply run_parse_spec; eauto.
 Qed.
 
@@ -324,7 +303,7 @@ Theorem canon_parse_is_pcf f j t p t' :
   simple_raw j = true -> parse_schema f j t = POk (p, t') -> canon p = pcf j.
 Proof.
   unfold parse_schema. intros S H.
-  destruct (parse_schema_rec f j t) as [[p0 t1]| | | |] eqn:E; cbn [pbind] in H; try discriminate H.
+  destruct (parse_schema_rec f j (mkst [] t)) as [[p0 st1]| | | |] eqn:E; cbn [pbind] in H; try discriminate H.
   injection H as <- <-. rewrite canon_tie. eapply parse_schema_rec_spec; eauto.
 Qed.
 
